@@ -494,7 +494,10 @@ example : lzwTakeAll 5 3 0b10110100 6 = 0b101110 ∧ lzwTakePart 1 2 0b10110110 
 example : readbits [0x0B] 0x80 0 9 0 = some (256, 0x0B, 1, []) := by decide
 
 /-- runlength.py: one step of `rldecode` written with the translated EOD byte, literal / repeat
-tests and counts; the two tests exhaust the non-EOD length bytes. -/
+tests and counts (since round 6 the model `rldecodeAux` uses them directly, so this is its
+unfolding and `rl_rt` is a proof about the translated constants); the two tests exhaust the non-EOD
+length bytes (the model's final `else` is the `if length > 128` branch) and an exhausted iterator
+reads as EOD. -/
 theorem rl_translated (fuel : Nat) (l : UInt8) (rest : Bytes) :
     RL_EOF_DEFAULT = RL_EOD ∧
     rldecodeAux (fuel + 1) (l :: rest) =
@@ -512,9 +515,7 @@ theorem rl_translated (fuel : Nat) (l : UInt8) (rest : Bytes) :
            | .error e => .error e) ∧
     (l.toNat ≠ RL_EOD → rlIsLiteral l.toNat = false → rlIsRepeat l.toNat = true) := by
   refine ⟨rfl, ?_, ?_⟩
-  · have h := u8_beq_toNat l 128 (by omega)
-    have h' : (l == 128) = decide (l.toNat = 128) := h
-    simp only [rldecodeAux, h', RL_EOD, rlIsLiteral, rlLiteralCount, rlRepeatCount]
+  · simp only [rldecodeAux, RL_EOD, rlIsLiteral, rlLiteralCount, rlRepeatCount]
     by_cases h1 : l.toNat = 128
     · simp [h1]
     · by_cases h2 : l.toNat < 128 <;> simp [h1, h2]
